@@ -39,10 +39,11 @@ class SpecDrift(Exception):
 
 
 class SList:
-    __slots__ = ("arr", "length", "elem")
+    __slots__ = ("arr", "length", "elem", "view_of_matrix")
 
     def __init__(self, arr, length, elem):
         self.arr, self.length, self.elem = arr, length, elem
+        self.view_of_matrix = False
 
     def __getitem__(self, i):
         return z3.Select(self.arr, L.lift(i, INT))
@@ -550,6 +551,11 @@ def solve(ob, timeout_ms=20000):
     if g is True or (L.is_z3(g) and z3.is_true(g)):
         ob.status, ob.solver = "unsat", "static"
         return ob
+    if getattr(ob, "inconclusive", False) and (g is False or (L.is_z3(g) and z3.is_false(g))):
+        # a shape / may-analysis obligation that did not recognise the code: not a refutation
+        ob.status, ob.solver = "unknown", "static"
+        ob.reason = "code shape not recognised by this syntactic obligation (no verdict)"
+        return ob
     if g is False:
         g = z3.BoolVal(False)
     # Portfolio.  Every stage only DROPS assumptions or changes the search (sound); `unsat` from any stage discharges the
@@ -835,6 +841,13 @@ class Exec:
                     self.oblige(s, "safe", "raise", "unreachable", False, val[1] if isinstance(val, tuple) else None)
             else:
                 raise Unsupported("break/continue outside loop")
+        # every anchor the contract hangs ghost code, hints or lemmas on must exist in the code: a statement that was
+        # renamed or restructured away silently takes its ghost updates with it, and the obligations that then fail would
+        # speak about the missing ghost state, not about the code
+        wanted = {a for (a, *_r) in list(c.hints) + list(c.late_hints) + list(c.lemmas) + list(c.ghost) + list(c.assumes)}
+        missing = sorted(a for a in wanted if a not in getattr(self, "fired_anchors", set()))
+        if missing:
+            raise SpecDrift("contract anchor(s) not found in the code: %s" % "; ".join(missing)[:400])
         return self.obligations
 
     def check_ensures(self, st, result):
@@ -919,6 +932,9 @@ class Exec:
 
     def apply_anchor(self, st, anchor):
         c = self.contract
+        if not hasattr(self, "fired_anchors"):
+            self.fired_anchors = set()
+        self.fired_anchors.add(anchor)
         for (a, fnh) in c.hints:
             if a != anchor or not getattr(fnh, "early", True):
                 continue
@@ -1183,11 +1199,12 @@ class Exec:
             return self.extra_loops, None
         i = self.loop_index[id(stmt)]
         specs = self.contract.loops
-        if i >= len(specs):
-            return i, None
+        if i >= len(specs) or specs[i] is None:
+            # the code has a loop the contract gives no invariant for (new or restructured): the proof does not apply
+            # as written
+            raise SpecDrift("loop #%d of %s (`%s %s`) has no invariant in the contract (%d loop(s) specified)" % (
+                i, self.qualname, kind, var, len(specs)))
         sp = specs[i]
-        if sp is None:
-            return i, None
         if sp.kind != kind or (sp.var is not None and sp.var != var):
             raise SpecDrift("loop #%d of %s is `%s %s` but the spec expects `%s %s`" % (
                 i, self.qualname, kind, var, sp.kind, sp.var))
@@ -1623,6 +1640,10 @@ class Exec:
             if ty and ty.startswith("list[") and isinstance(val, SList) and isinstance(val.length, int) \
                     and val.length == 0 and val.elem != ty[5:-1]:
                 val = SList(fresh("list", z3.ArraySort(INT, sort_of(ty[5:-1]))), 0, ty[5:-1])   # typed empty list
+            if isinstance(val, SList) and getattr(val, "view_of_matrix", False):
+                if not hasattr(self, "view_names"):
+                    self.view_names = set()
+                self.view_names.add(tgt.id)       # a local bound to a numpy row VIEW (aliases the matrix)
             st.locals[tgt.id] = val
             st.defined.pop(tgt.id, None)
             return
@@ -1640,6 +1661,10 @@ class Exec:
             idx = self.eval(st, tgt.slice)
             cur = self.eval(st, tgt.value)
             if isinstance(cur, SList):
+                if isinstance(tgt.value, ast.Name) and (getattr(cur, "view_of_matrix", False)
+                                                        or tgt.value.id in getattr(self, "view_names", ())):
+                    raise Unsupported("store through a local that aliases a matrix row (numpy view) at line %d"
+                                      % getattr(stmt, "lineno", 0))
                 self.check_index(st, cur, idx, tgt)
                 new = SList(z3.Store(cur.arr, L.lift(idx, INT), L.lift(val, sort_of(cur.elem))), cur.length, cur.elem)
                 self.assign(st, tgt.value, new, stmt) if not isinstance(tgt.value, ast.Attribute) else \
@@ -1933,7 +1958,12 @@ class Exec:
             return base[idx]
         if isinstance(base, SMat):
             self.oblige(st, "safe", "index", "row", L.conj(L.le(0, idx), L.lt(idx, base.nrows)), e)
-            return base[idx]
+            row = base[idx]
+            try:
+                row.view_of_matrix = True     # numpy hands out a VIEW of the row; values are modelled, aliasing is not
+            except AttributeError:
+                pass
+            return row
         if isinstance(base, NodeList):
             n = st.heap[base.oid]["nodes.len"]
             self.oblige(st, "safe", "index", "node", L.conj(L.le(0, idx), L.lt(idx, n)), e)
@@ -2009,9 +2039,19 @@ class Exec:
             return self.eval(st, e.body)
         if c is False:
             return self.eval(st, e.orelse)
-        a = self.eval(st, e.body)
-        b = self.eval(st, e.orelse)
-        return merge_values(c, a, b)
+        # each arm is evaluated under its guard (its safety obligations and facts hold only when it is taken)
+        cz = L.to_z3_bool(c)
+        vals = []
+        for guard, arm in ((cz, e.body), (z3.Not(cz), e.orelse)):
+            n0 = len(st.pc)
+            st.pc.append(guard)
+            v = self.eval(st, arm)
+            added = st.pc[n0 + 1:]
+            del st.pc[n0:]
+            for t in added:
+                st.pc.append(z3.Implies(guard, t))
+            vals.append(v)
+        return merge_values(c, vals[0], vals[1])
 
     def expr_Compare(self, st, e):
         left = self.eval(st, e.left)
@@ -2298,6 +2338,14 @@ class Exec:
     def builtin_isinstance(self, st, e):
         v = self.eval(st, e.args[0])
         tnode = e.args[1]
+        if isinstance(tnode, ast.Name) and tnode.id not in ("int", "float", "bool", "str", "list", "tuple", "dict"):
+            # a module-level constant naming the accepted types, e.g. _NUMERIC_TYPES = (float, int, np.int32)
+            tree = self.repo.modules.get(self.modname)
+            for top in (tree.body if tree is not None else []):
+                if isinstance(top, ast.Assign) and len(top.targets) == 1 and isinstance(top.targets[0], ast.Name) \
+                        and top.targets[0].id == tnode.id and isinstance(top.value, (ast.Tuple, ast.Name, ast.Attribute)):
+                    tnode = top.value
+                    break
         tnames = [ast.unparse(x) for x in (tnode.elts if isinstance(tnode, ast.Tuple) else [tnode])]
         kinds = set()
         if isinstance(v, bool) or (L.is_z3(v) and z3.is_bool(v)):
@@ -2471,10 +2519,12 @@ class Exec:
         st.defined = {}
         self.fn_inline = fn
         self.aliases = self.repo.module_aliases(modname)
+        self.modname = modname          # bare names inside the inlined body resolve in ITS module
         try:
             outs = self.exec_block(st, strip_docstring(fn))
         finally:
             self.aliases = saved_ctx[1]
+            self.modname = saved_ctx[2]
             self.cur_fn_stack.pop()
         rets = []
         for (s, kind, val) in outs:
